@@ -10,18 +10,20 @@ EXTENDS Requestor, Json
 VARIABLE hist
 svars == <<vars, hist>>
 
-Point == IF ex = "hook" THEN "hook"
+Point == IF st = "setup" THEN "setup" ELSE IF ex = "hook" THEN "hook"
          ELSE IF ex = "load" /\ ~reqSent /\ k < K THEN "preload"
          ELSE IF ex = "load" /\ reqSent /\ online /\ avail = 0 /\ k < K THEN "wait"
          ELSE IF ex = "idle" /\ task # "pending" THEN "idle"
+         ELSE IF st = "setup" THEN "setup"
          ELSE IF ex = "blocked" THEN "queued"
          ELSE "moving"
-Stable == Point # "moving" /\ inErrBy = "none" /\ ~ENABLED (EColSteps \/ PColSteps \/ ActorSteps)
+Stable == Point # "moving" /\ inErrBy = "none" /\ ~ENABLED (EColSteps \/ PColSteps \/ ActorCore)
 Ev(name, a, b) == [ev |-> name, a |-> a, b |-> b, at |-> Point, k |-> Loaded]
 Statuses == {"partial", "paused", "full", "failed"}
 Reacts == {"ok", "update", "error"}
 
-SInit == Init /\ hist = (IF ex = "blocked" THEN <<[ev |-> "blockedstart", a |-> "", b |-> "", at |-> "queued", k |-> 0]>> ELSE <<>>)
+SInit == Init /\ ~(ex = "blocked" /\ st = "setup") /\ hist = (IF ex = "blocked" THEN <<[ev |-> "blockedstart", a |-> "", b |-> "", at |-> "queued", k |-> 0]>> ELSE <<>>)
+                      \o (IF st = "setup" THEN <<[ev |-> "setupstart", a |-> "", b |-> "", at |-> "setup", k |-> 0]>> ELSE <<>>)
 SEnv == /\ Stable /\ Point # "hook"
         /\ \/ \E s \in Statuses, hr \in Reacts : bServing /\ Responses("B", s, hr) /\ hist' = Append(hist, Ev("B", s, hr)) /\ cancelLive' = cancelLive
            \/ \E s \in Statuses, hr \in Reacts : Responses("C", s, hr) /\ gotTerminal' = gotTerminal /\ hist' = Append(hist, Ev("C", s, hr)) /\ cancelLive' = cancelLive
@@ -30,6 +32,7 @@ SEnv == /\ Stable /\ Point # "hook"
            \/ ApiCancel /\ hist' = Append(hist, Ev("apicancel", "", "")) /\ cancelLive' = cancelLive
            \/ UnpauseApi /\ nenv < MaxEnv /\ hist' = Append(hist, Ev("unpause", "", "")) /\ cancelLive' = cancelLive
            \/ FreeWorker /\ hist' = Append(hist, Ev("free", "", "")) /\ cancelLive' = cancelLive
+           \/ SetupDone /\ hist' = Append(hist, Ev("setupdone", "", "")) /\ cancelLive' = cancelLive
 \* inside the block hook the harness may fire environment events and then returns the hook's decision
 SHookEnv == /\ ex = "hook" /\ inErrBy = "none"
             /\ \/ \E s \in Statuses, hr \in Reacts : bServing /\ Responses("B", s, hr) /\ hist' = Append(hist, Ev("B", s, hr)) /\ cancelLive' = cancelLive
